@@ -121,8 +121,43 @@ def none_means_inf(mod):
     return False
 
 
+def scan_line_dtype(mod):
+    """dtype of the per-row buffer the target test reads: `scan_line = np.zeros(width, dtype=<e>)` in the nested
+    `_process_numpy(img, ...)`.  ("img", None) when <e> is `<first parameter>.dtype`, ("fixed", name) for `np.<name>` /
+    a string constant, ("other", text) for anything else or when the statement is not found exactly once"""
+    outer = find_func(mod, "_process")
+    if outer is None:
+        return ("other", "no _process")
+    inner = [n for n in ast.walk(outer) if isinstance(n, ast.FunctionDef) and n.name == "_process_numpy"]
+    if len(inner) != 1 or not inner[0].args.args:
+        return ("other", "no nested _process_numpy")
+    img = inner[0].args.args[0].arg
+    found = []
+    for st in ast.walk(inner[0]):
+        if isinstance(st, ast.Assign) and len(st.targets) == 1 and isinstance(st.targets[0], ast.Name) \
+                and st.targets[0].id == "scan_line":
+            found.append(st.value)
+    if len(found) != 1:
+        return ("other", f"{len(found)} assignments to scan_line")
+    v = found[0]
+    if not (isinstance(v, ast.Call) and call_name(v.func) in ("zeros", "empty") and len(v.args) == 1):
+        return ("other", ast.unparse(v))
+    kw = {k.arg: k.value for k in v.keywords}
+    if set(kw) != {"dtype"}:
+        return ("other", ast.unparse(v))       # no dtype= means float64, not the raster's dtype
+    d = kw["dtype"]
+    if isinstance(d, ast.Attribute) and d.attr == "dtype" and isinstance(d.value, ast.Name) and d.value.id == img:
+        return ("img", None)
+    if isinstance(d, ast.Attribute) and isinstance(d.value, ast.Name) and d.value.id in ("np", "numpy"):
+        return ("fixed", d.attr)
+    if isinstance(d, ast.Constant) and isinstance(d.value, str):
+        return ("fixed", d.value)
+    return ("other", ast.unparse(d))
+
+
 def generate(repo):
     mod = ast.parse(open(os.path.join(repo, REL)).read())
+    sld = scan_line_dtype(mod)
     consts = int_consts(mod)
     table = metric_table(mod, consts)
     fb = fallback(mod)
@@ -153,6 +188,15 @@ def generate(repo):
            "def defaultMax : List String := [" + ", ".join(lean_str(defaults.get(f, {}).get("max_distance", "?"))
                                                          for f in ("proximity", "allocation", "direction")) + "]",
            "",
+           "/-- dtype of a line buffer -/",
+           "inductive BufDtype where",
+           "  | imgDtype                 -- `<raster argument>.dtype`",
+           "  | fixed (name : String)    -- `np.<name>` / a dtype string",
+           "  | other                    -- anything else / not found",
+           "  deriving DecidableEq, Repr",
+           "/-- `_process_numpy`: `scan_line = np.zeros(width, dtype=...)`, the row buffer `_process_proximity_line` tests for targets -/",
+           "def scanLineDtype : BufDtype := " + {"img": ".imgDtype", "fixed": f".fixed {lean_str(sld[1] or '')}", "other": ".other"}[sld[0]],
+           "",
            "/-- the metric code `_process` works with for a metric string -/",
            "def resolveMetric (s : String) : Option Nat :=",
            "  match metricTable.lookup s with",
@@ -162,7 +206,7 @@ def generate(repo):
            "def distanceFor (m : Nat) : String := (distanceDispatch.lookup m).getD distanceElse", "",
            "end XrsVerif.Gen.ProximityFacts", ""]
     rep = dict(metric_table=table, fallback=fb, dispatch=[[k, v] for k, v in disp], dispatch_else=other,
-               process_mode=modes, defaults=defaults, none_means_inf=nmi,
+               process_mode=modes, defaults=defaults, none_means_inf=nmi, scan_line_dtype=list(sld),
                constants={k: consts[k] for k in ("EUCLIDEAN", "GREAT_CIRCLE", "MANHATTAN", "PROXIMITY", "ALLOCATION",
                                                  "DIRECTION") if k in consts})
     yield "ProximityFacts.lean", "\n".join(out), rep
